@@ -116,6 +116,19 @@ CHECKS["C10"] = (
     "DESIGN.md section 3 / C10",
 )
 
+CHECKS["C04"] = (
+    "Hypothesis trees x format x option x alive-set (incl. fresh worker process) round trips vs a position-wise snapshot oracle",
+    "Seeded Hypothesis search over trees with every representable value kind and origin kind, shared subtrees and "
+    "suffixed ids, crossed with the four formats, the documented options (incl. index-based sources with the load "
+    "protocol) and drawn alive sets (all, none, subsets, detached-but-held, outside twins dropped so ids must be "
+    "forced, and a fresh worker interpreter); the result is compared position by position with a snapshot taken "
+    "before serialization (identity for registered originals, equal class/id/content_id/typed values/origin "
+    "spec and registration for re-created nodes, sharing, singletons, ==). Bounded exploration.",
+    "Trusts Hypothesis, the snapshot/dump of pbt/props/c04.py (own reflection over dataclass fields); values are "
+    "type-exact for their annotations; -0.0, NaN, inf and frozensets are outside the quantifier.",
+    "DESIGN.md section 3 / C04",
+)
+
 NOT_YET = "check not built yet in this snapshot (see DESIGN.md section 9 build order); nothing is claimed"
 
 
